@@ -13,6 +13,7 @@
     normalised to [err_text] except the one literal the engine itself
     writes. *)
 From Sheens Require Export Model.Match.
+From Sheens Require Export Gen.Names.
 
 (** what F returned *)
 Record exec_raw : Type := mk_raw {
@@ -43,7 +44,15 @@ Record walked : Type := mk_walked {
 
 Definition err_text : json := JStr "<err>".
 Definition no_branch_text : json := JStr "Action node followed no branch".
-Definition error_node_literal : string := "error".
+(** The node name and the binding names Spec.Step and Spec.Walk write when a
+    stride ends in an error are not written here: they are read from the
+    source of the tree under test (Gen/Names.v, written by
+    harness/cmd/genconsts on every run: the literals given to Extend /
+    Extendm and to State{NodeName: ...} in the two functions, which must
+    agree between the two).  Spec/StepRule.v states the rule with the
+    documented names; Proofs/StepFacts.v ([error_names_documented]) and the
+    proofs of Proofs/StepRuleProofs.v tie the two. *)
+Definition error_node_literal : string := step_error_node.
 
 (** Bindings.Copy: a nil map copies to an empty one *)
 Definition copy_bs (b : option bindings) : bindings :=
@@ -220,8 +229,8 @@ Section Engine.
     end.
 
   Definition error_bindings (base : bindings) (text : json) (from : state) : bindings :=
-    bset "lastBindings" (JObj (copy_bs (st_bs from)))
-      (bset "lastNode" (JStr (st_node from)) (bset "error" text base)).
+    bset step_last_bindings_key (JObj (copy_bs (st_bs from)))
+      (bset step_last_node_key (JStr (st_node from)) (bset step_error_key text base)).
 
   Record step_out : Type := mk_step_out {
     so_stride : option stride;
@@ -266,7 +275,7 @@ Section Engine.
             let ebs := copy_bs ob in          (* nil bindings from an action become empty *)
             if negb err then continue (Some ebs) emitted
             else
-              let bs := bset "error" err_text (bset "actionError" err_text (copy_bs (st_bs st))) in
+              let bs := bset step_error_key err_text (bset step_action_error_key err_text (copy_bs (st_bs st))) in
               if negb (sp_err_branches s) then
                 if String.eqb (sp_err_node s) "" then mk_step_out None (Some EAction) false
                 else mk_step_out
